@@ -128,3 +128,58 @@ B('c05b_pieces_sign_mandatory', ['C05'], 'R05.a',
   (R, _INT, "_SIGN_PATTERN = r'[+-]\\ *'\n_INT_PATTERN = _SIGN_PATTERN + r'[0-9]+'\n"))
 B('c05b_pieces_digits_optional', ['C05'], 'R05.a',
   (R, _INT, "_SIGN_PATTERN = r'[+-]?\\ *'\n_INT_PATTERN = _SIGN_PATTERN + r'[0-9]*'\n"))
+
+# ---- second batch: guards, alias table, join of a literal list, **fields -----------------------------------------
+_TYPETRY = ("        try:\n" + _TYPELOOK + "        except KeyError:\n            raise InvalidPattern('unknown type specifier %s'\n"
+            "                                 % type_name)\n")
+_OPTRY = ("        try:\n" + _OPLOOK + "        except KeyError:\n            _tmpl = 'unknown arity operator %r, expected one of %r'\n"
+          "            raise InvalidPattern(_tmpl % (op, _OP_ARITY_MAP.keys()))\n")
+_COLON = "        if op == ':':\n            op = ''\n"
+_FMT = ("        path_seg_pattern = _SEG_TMPL.format(name=name,\n                                            sep=sep,\n"
+        "                                            pattern=cur_patt,\n                                            arity=op)\n")
+
+T('c05t_membership_guards', ['C05'],
+  (R, _TYPETRY, "        if type_name not in TYPE_CONV_MAP:\n            raise InvalidPattern('unknown type specifier %s'\n                                 % type_name)\n"
+                "        cur_conv = TYPE_CONV_MAP[type_name]\n        cur_patt = TYPE_PATT_MAP[type_name]\n"),
+  (R, _OPTRY, "        if op not in _OP_ARITY_MAP:\n            _tmpl = 'unknown arity operator %r, expected one of %r'\n"
+              "            raise InvalidPattern(_tmpl % (op, _OP_ARITY_MAP.keys()))\n"
+              "        multi = _OP_ARITY_MAP[op]\n        optional = _OP_OPTIONALITY_MAP[op]\n"))
+T('c05t_second_lookup_after_try', ['C05'],
+  (R, _TYPETRY, "        try:\n            cur_conv = TYPE_CONV_MAP[type_name]\n        except KeyError:\n"
+                "            raise InvalidPattern('unknown type specifier %s'\n                                 % type_name)\n"
+                "        cur_patt = TYPE_PATT_MAP[type_name]\n"))
+T('c05t_colon_alias_table', ['C05'],
+  (R, "TYPE_CONV_MAP = {}\n", "_OP_ALIASES = {':': ''}\nTYPE_CONV_MAP = {}\n"), (R, _COLON, "        op = _OP_ALIASES.get(op, op)\n"))
+T('c05t_colon_conditional_expression', ['C05'], (R, _COLON, "        op = '' if op == ':' else op\n"))
+T('c05t_join_of_literal_list', ['C05'],
+  (R, _TAIL, "    if mode != S_STRICT and not processed[-1]:\n        processed = processed[:-1]\n    tail = '/*'\n    if mode == S_STRICT:\n        tail = ''\n"
+             "    regex = re.compile(''.join(['^', sep.join(processed), tail, '$']))\n"))
+T('c05t_format_fields_dict', ['C05'],
+  (R, _FMT, "        fields = dict(name=name, sep=sep, pattern=cur_patt, arity=op)\n        path_seg_pattern = _SEG_TMPL.format(**fields)\n"))
+T('c05t_type_is_none_default', ['C05'], (R, _DEFTYPE, "        if type_name is None:\n            type_name = 'unicode'\n"))
+T('c05t_groupdict_get', ['C05'], (R, _PARSE, "        parsed = match.groupdict()\n        name = parsed['name']\n        op = parsed.get('op')\n        type_name = parsed.get('type') or 'unicode'\n"),
+  (R, _DEFTYPE, ''))
+T('c05t_leading_slash_slice', ['C05'], (R, "    if not pattern.startswith('/'):\n", "    if pattern[:1] != '/':\n"))
+T('c05t_op_table_from_base', ['C05'],
+  (R, _OPTY, "_OP_OPTIONALITY_MAP = dict(_OP_ARITY_MAP, **{'?': True, '+': False})\n"))
+
+B('c05b_lookup_before_the_try', ['C05'], 'R05.c',
+  (R, _OPTRY, "        multi = _OP_ARITY_MAP[op]\n        try:\n            optional = _OP_OPTIONALITY_MAP[op]\n        except KeyError:\n"
+              "            _tmpl = 'unknown arity operator %r, expected one of %r'\n            raise InvalidPattern(_tmpl % (op, _OP_ARITY_MAP.keys()))\n"))
+B('c05b_handler_swallows_unknown_type', ['C05'], 'R05.c',
+  (R, _TYPETRY, "        try:\n" + _TYPELOOK + "        except KeyError:\n            cur_conv, cur_patt = unicode, _STR_PATTERN\n"))
+B('c05b_guard_tests_other_key', ['C05'], 'R05.c',
+  (R, _TYPETRY, "        if name not in TYPE_CONV_MAP:\n            raise InvalidPattern('unknown type specifier %s'\n                                 % type_name)\n"
+                "        cur_conv = TYPE_CONV_MAP[type_name]\n        cur_patt = TYPE_PATT_MAP[type_name]\n"))
+B('c05b_alias_table_wrong_target', ['C05'], 'R05.b',
+  (R, "TYPE_CONV_MAP = {}\n", "_OP_ALIASES = {':': '?'}\nTYPE_CONV_MAP = {}\n"), (R, _COLON, "        op = _OP_ALIASES.get(op, op)\n"))
+B('c05b_alias_after_lookups', ['C05'], 'R05.b',
+  (R, "TYPE_CONV_MAP = {}\n", "_OP_ALIASES = {':': ''}\nTYPE_CONV_MAP = {}\n"), (R, _COLON, ""),
+  (R, "        var_converter_map[name] = build_converter(cur_conv,", "        op = _OP_ALIASES.get(op, op)\n        var_converter_map[name] = build_converter(cur_conv,"))
+B('c05b_literal_list_without_dollar', ['C05'], 'R05.d',
+  (R, _TAIL, "    if mode != S_STRICT and not processed[-1]:\n        processed = processed[:-1]\n    tail = '/*'\n    if mode == S_STRICT:\n        tail = ''\n"
+             "    regex = re.compile(''.join(['^', sep.join(processed), tail]))\n"))
+B('c05b_fields_dict_quantifier_literal', ['C05'], 'R05.b',
+  (R, _FMT, "        fields = dict(name=name, sep=sep, pattern=cur_patt, arity='')\n        path_seg_pattern = _SEG_TMPL.format(**fields)\n"))
+B('c05b_op_table_from_base_wrong', ['C05'], 'R05.b',
+  (R, _OPTY, "_OP_OPTIONALITY_MAP = dict(_OP_ARITY_MAP, **{'?': True})\n"))
